@@ -32,7 +32,7 @@ SELECTORS['dir-rtl'] = ':dir(rtl)'
 
 # ---------------------------------------------------------------------------------------------
 # Router: stands in for the Check object during one run (own counters, so that runs can go side
-# by side in threads), then sorts the reports into violations / drift and merges into the Check.
+# by side in processes), then sorts the reports into violations / drift and merges into the Check.
 # ---------------------------------------------------------------------------------------------
 class Router:
     def __init__(self, label):
@@ -166,8 +166,8 @@ def add_drift(drift, label, css, cls, example):
 # ---------------------------------------------------------------------------------------------
 # B2: random form documents
 # ---------------------------------------------------------------------------------------------
-TYPES = ['text', 'TEXT', 'checkbox', 'radio', 'radio', 'Radio', 'submit', 'submit', 'number', 'hidden', 'HIDDEN', 'number', 'date', 'tel', 'search',
-         'password', 'junk', '']
+TYPES = ['text', 'TEXT', 'checkbox', 'radio', 'radio', 'Radio', 'submit', 'submit', 'number', 'number', 'hidden',
+         'HIDDEN', 'date', 'tel', 'search', 'password', 'junk', '']
 CONTAINERS = ['form', 'form', 'fieldset', 'fieldset', 'legend', 'div', 'div', 'select', 'optgroup', 'bdi', 'iframe', 'a',
               'label']
 LEAVES = ['input'] * 8 + ['button', 'button', 'option', 'option', 'textarea', 'textarea', 'progress', 'area', 'text', 'text']
